@@ -151,7 +151,7 @@ static std::string gen_value(int depth, int &budget, int maxdepth) {
     switch (rn(5)) {
     case 0: return chance(50) ? "t" : "f";
     case 1: snprintf(b, sizeof b, "i%lld", (long long)(chance(60) ? INTS[rn(17)] : (int64_t)r64())); return b;
-    case 2: { static const uint64_t D[] = { 0, 0x8000000000000000ULL, 0x7ff0000000000000ULL, 0x7ff8000000000001ULL, 0x3ff0000000000000ULL, 0x0102030405060708ULL, 1 }; snprintf(b, sizeof b, "d%llu", (unsigned long long)(chance(60) ? D[rn(7)] : r64())); return b; }
+    case 2: { static const uint64_t D[] = { 0, 0x8000000000000000ULL, 0x7ff0000000000000ULL, 0x7ff8000000000001ULL, 0x3ff0000000000000ULL, 0x0102030405060708ULL, 1, 0x80ULL, 0x1234ULL, 0x8000ULL, 0x12345678ULL, 0x80000000ULL, 0xffffffffffffff7fULL, 0xffffffffffff7fffULL, 0xffffffff7fffffffULL }; snprintf(b, sizeof b, "d%llu", (unsigned long long)(chance(60) ? D[rn(15)] : r64())); return b; }
     case 3: { size_t n = chance(4) ? 200 + rn(1200) : rn(8); std::string s; for (size_t i = 0; i < n; i++) s.push_back((char)(chance(90) ? 'a' + rn(5) : (int)rn(256))); return "s" + hexs(s); }
     default: { size_t n = chance(4) ? 200 + rn(1200) : rn(8); std::string s; for (size_t i = 0; i < n; i++) s.push_back((char)rn(256)); return "y" + hexs(s); }
     }
